@@ -709,6 +709,12 @@ func (ex *Exec) assumeAllocated(st *State, v Val) {
 		return
 	}
 	switch v.typ.Underlying().(type) {
+	case *types.Slice:
+		// type invariant of slice values: 0 <= len, nil implies empty
+		sn := ex.eng.S.sortOf(v.typ)
+		if !strings.HasPrefix(v.t, "(mk_") {
+			ex.vc.assume(st.pc, fmt.Sprintf("(and (>= (len_%s %s) 0) (=> (nil_%s %s) (= (len_%s %s) 0)))", sn, v.t, sn, v.t, sn, v.t))
+		}
 	case *types.Pointer, *types.Map:
 		if strings.HasPrefix(v.t, "glob_") {
 			return
